@@ -16,6 +16,18 @@ fn main() {
     if args.is_empty() {
         usage();
     }
+    if args[0] == "dump-corpus" {
+        // dexcheck dump-corpus pool|farm N DIR [SEED]
+        let n: usize = args.get(2).and_then(|s| s.parse().ok()).unwrap_or(100);
+        let seed: u64 = args.get(4).and_then(|s| s.parse().ok()).unwrap_or(1);
+        match dexh::fuzzglue::dump_corpus(&args[1], n, &args[3], seed) {
+            Ok(()) => std::process::exit(0),
+            Err(e) => {
+                eprintln!("{e}");
+                std::process::exit(2)
+            }
+        }
+    }
     let prop = args[0].to_uppercase();
     let mut tier = match std::env::var("VERIF_TIER").ok().as_deref() {
         Some("thorough") => Tier::Thorough,
